@@ -40,3 +40,16 @@ Proof.
   - rewrite Hk, Z.mod_add by lia. apply Z.mod_small. lia.
   - intros ->. rewrite Hk. cbn. lia.
 Qed.
+
+(* the Keccak instance of hash-to-scalar returns reduced scalars *)
+Lemma hs_keccak_range m : 0 <= hs_keccak m < ell.
+Proof.
+  unfold hs_keccak, Keccak.hash_to_scalar, Keccak.h2s.
+  pose proof (N.mod_lt (le2n (Keccak.keccak256 m)) Keccak.group_order ltac:(discriminate)) as H.
+  change ell with (Z.of_N Keccak.group_order). lia.
+Qed.
+
+Lemma hs_keccak_spec m : hs_keccak m = Z.of_N (le2n (Keccak.keccak256 m)) mod ell.
+Proof.
+  unfold hs_keccak, Keccak.hash_to_scalar, Keccak.h2s. rewrite N2Z.inj_mod. reflexivity.
+Qed.
